@@ -10,7 +10,7 @@
    the query ([consistent]).  Nothing is assumed about the error scripts, the contexts passed by the
    consumers, the interleaving of background drain steps, invalidations, evictions, or the moment
    the server context is cancelled. *)
-From OFGA Require Import Cache.CachedIter Cache.CachedIterProofs.
+From OFGA Require Import Cache.CachedIter Cache.CachedIterProofs Cache.CachedIterAdmit Cache.CachedIterAdmitProofs.
 Open Scope N_scope.
 
 (* Whenever an entry is written into the cache, it is the WHOLE answer, never a prefix: for every
@@ -101,6 +101,31 @@ Theorem flush_needs_inner_contract :
     recs <> map (elide (w_kf ex_world V1 k)) (w_full ex_world k).
 Proof. exact flush_needs_inner_contract_lemma. Qed.
 Print Assumptions flush_needs_inner_contract.
+
+(* ---- admission into a shared iterator (storageItem.unwrap) ----
+   Full-strength statement, which the unchanged code does NOT satisfy:
+     admission_isolated : forall h, forallb aout_ok (arun ainit h) = true
+   (a request whose own context is alive, over a datastore that does not fail, is given its
+   iterator, whatever the other requests do).  The faithful model refutes it: a request that joins an
+   item whose producer runs under the CREATOR's cancelled context is handed the creator's
+   "context canceled" (finding shared_admission_cancel_leak, reproduced on the real code by the
+   driver's class D).  What holds is the statement under the hypothesis that excludes the trigger. *)
+Theorem admission_isolated_refuted :
+  exists h, forallb aout_ok (arun ainit h) = false /\ existsb aout_leak (arun ainit h) = true.
+Proof. exact admission_isolated_refuted_lemma. Qed.
+Print Assumptions admission_isolated_refuted.
+
+(* missing part: histories in which a producer runs under a dead context *)
+Theorem admission_isolated_partial :
+  forall h, no_dead_producer h = true -> forallb aout_ok (arun ainit h) = true.
+Proof. exact admission_isolated_partial_lemma. Qed.
+Print Assumptions admission_isolated_partial.
+
+Example ex_admission_partial_nonvacuous :
+  no_dead_producer [AArrive 0 7; AArrive 1 7; AProduce 7 None None; AReturn 0 true; AReturn 1 true] = true /\
+  arun ainit [AArrive 0 7; AArrive 1 7; AProduce 7 None None; AReturn 0 true; AReturn 1 true]
+  = [ANone; ANone; ANone; ARes AOk true false false false; ARes AOk true true false false].
+Proof. split; vm_compute; reflexivity. Qed.
 
 (* ---- non-vacuity: a concrete store, a history with a cancellation in the middle of a read, an
    abandoned iterator, an unrelated error met by the background drain, a flush, and a second read
